@@ -93,12 +93,19 @@ fn call(ep: &Ep, k: OpKind, id: u32, var: u8) -> Result<Option<u32>, String> {
                 b.set_reply_ack_flag(var % 2 == 0);
                 return Ok(None);
             }
-            match var % 5 {
-                0 => b.shared_object_add(&u).map(|_| None).map_err(e),
-                1 => b.shared_object_remove(&u).map(|_| None).map_err(e),
-                2 => b.shared_object_lookup(&u, &file).map(|_| None).map_err(e),
-                3 => b.shmem_map(&mm, &file).map(|_| None).map_err(e),
-                _ => b.shmem_unmap(&mm).map(|_| None).map_err(e),
+            let r = match var % 5 {
+                0 => b.shared_object_add(&u),
+                1 => b.shared_object_remove(&u),
+                2 => b.shared_object_lookup(&u, &file),
+                3 => b.shmem_map(&mm, &file),
+                _ => b.shmem_unmap(&mm),
+            };
+            // the peer acknowledges requests of odd callers with a failure status and those of even callers with 0:
+            // a caller that reads another caller's acknowledgement gets the wrong outcome
+            match (r, id % 2 == 1) {
+                (Ok(_), false) | (Err(_), true) => Ok(Some(id)),
+                (Ok(_), true) => Ok(Some(id + 1000)),
+                (Err(x), false) => Err(e(x)),
             }
         }
         Ep::Gpu(g) => {
@@ -176,7 +183,9 @@ fn answer(ep: Endpoint, f: &spec::Frame, gpu_seq: &mut u32) -> Option<Vec<u8>> {
         },
         Endpoint::BackendProxy => {
             if f.flags & spec::F_NEED_REPLY != 0 {
-                Some(spec::reply(f.code, &spec::b_u64(0)))
+                // status by caller identity (first body byte = identity + 1): odd callers are refused
+                let id = f.body.first().map(|b| (*b as u64).wrapping_sub(1)).unwrap_or(0);
+                Some(spec::reply(f.code, &spec::b_u64(id % 2)))
             } else {
                 None
             }
@@ -408,6 +417,12 @@ pub fn run_case(ctx: &mut Ctx, c: &Case) -> Result<(), String> {
                 Ok(Some(v)) => {
                     if c.endpoint == Endpoint::Gpu && c.ops[i] == OpKind::Reply2 {
                         gpu_seq_seen.push(*v);
+                    } else if c.endpoint == Endpoint::BackendProxy
+                        && *v == i as u32 + 1000
+                        && !peer.frames.iter().any(|f| frame_owner(c.endpoint, f) == Some(i as u32) && f.flags & spec::F_NEED_REPLY != 0)
+                    {
+                        // the request went out without NEED_REPLY (acknowledgements had been switched off by another
+                        // clone before this caller took the lock): nothing was awaited, success is the right outcome
                     } else if *v != i as u32 {
                         return Err(format!("caller {i} ({:?}) received the answer to request {v} instead of its own", c.ops[i]));
                     }
@@ -482,6 +497,9 @@ pub fn run_stress(ctx: &mut Ctx, c: &StressCase) -> Result<(), String> {
                 let k = kinds[(t + j as usize) % 4];
                 if endpoint == Endpoint::Gpu && k == OpKind::Reply2 {
                     continue; // sequence-numbered identity needs the controlled run
+                }
+                if endpoint == Endpoint::BackendProxy && k == OpKind::Forget {
+                    continue; // acknowledgements stay on: every caller's outcome is determined by its own request
                 }
                 match call(&ep, k, t as u32, (j / 4) as u8) {
                     Err(e) => {
@@ -723,7 +741,7 @@ pub fn run_fault_case(ctx: &mut Ctx, c: &FaultCase) -> Result<(), String> {
     let (ep, mut peer) = make_endpoint(c.endpoint)?;
     let ep2 = ep.clone();
     let kind = c.kind;
-    let first = std::thread::Builder::new().name("c10_fault_first".into()).spawn(move || call(&ep, kind, 1, 0)).map_err(|e| e.to_string())?;
+    let first = std::thread::Builder::new().name("c10_fault_first".into()).spawn(move || call(&ep, kind, 2, 0)).map_err(|e| e.to_string())?;
     // wait for the request to be on the wire
     let t0 = Instant::now();
     while peer.frames.is_empty() && t0.elapsed() < BOUND {
@@ -763,7 +781,7 @@ pub fn run_fault_case(ctx: &mut Ctx, c: &FaultCase) -> Result<(), String> {
         return Err(format!("{c:?}: the call returned Ok({:?}) although no reply to it was ever sent", r1.unwrap()));
     }
     // the lock must be free again: a fire-and-forget call on another clone returns (with whatever result)
-    let second = std::thread::Builder::new().name("c10_fault_second".into()).spawn(move || call(&ep2, OpKind::Forget, 2, 0)).map_err(|e| e.to_string())?;
+    let second = std::thread::Builder::new().name("c10_fault_second".into()).spawn(move || call(&ep2, OpKind::Forget, 4, 0)).map_err(|e| e.to_string())?;
     let _ = wait(second, "a later call on another clone")?;
     ctx.class(&format!("fault_{:?}", c.fault));
     ctx.nontrivial(&("fault", c.endpoint, c.kind, c.fault));
